@@ -63,6 +63,11 @@ def boundary_seqs():
     for n in (1, 2, 3, 19, 20, 21, 39, 40, 41, 100):
         out.append(["new %s %d" % (c19.hx(b"x" * n), blk) for blk in (0, n - 1, n, n + 1)] + ["appd " + c19.hx(b"y" * n), "b2h L", "h2b", "b64e", "b64d", "dup", "appch 0", "rtz"])
     out.append(["new - 0", "h2b", "b2h U", "b64e", "b64d", "shrink", "strip", "nosp", "rtz", "words", "dup", "appch 7", "del 0 1", "appc 00"])
+    for blk in (0, 1, 100):
+        out.append(["new 6162 %d" % blk, "F1 appch 99", "A1 appd 6364", "F1 ins 7878 1", "F1 insc 7900 0", "F1 app 7a", "F1 appc 7a00", "F1 appmb 300",
+                    "F1 b2h U", "A1 b2h L", "F1 b64e", "F2 b64e", "A1 b64e", "F1 b64d", "F2 b64d", "F1 words", "F2 words", "F3 words", "F4 words", "F5 words",
+                    "F1 dup", "F2 dup", "F1 new 61 0", "F2 new 61 0", "F1 new - 0", "F1 sta 6162", "len", "appch 32", "appch 100", "F7 words", "A6 words", "words"])
+    out.append(["lnew", "F1 lapp 1", "lapp 1", "F1 lins 2 0", "A1 lins 2 5", "lins 2 0", "F1 lnew", "llen", "F2 lapp 3", "lext", "lext", "F1 lapp 4", "lapp 5"])
     out.append(["lnew", "lext", "lget 0", "lins 1 5", "lins 2 0", "lins 3 1", "lins 4 2", "lins 5 3", "lins 6 4294967295", "lapp 7",
                 "lext", "lext", "lext", "lext", "lext", "lext", "lext", "lext", "lapp 8", "lins 9 1", "llen"])
     return out
@@ -77,6 +82,7 @@ def run(ctx):
         "freshly allocated cells hold 170 in the model, so the NUL after the contents exists only where the code stores it",
         "out of contract and not generated: delete with pos < len and pos + n > len; inserting/appending a buffer into itself",
         "reads outside the storage are not tracked by the model's fault flag (stores, memcpy and memmove are); ASan/UBSan watch them on the C side",
+        "allocation refusal: Model/BufferAlloc.v answers every malloc/realloc request of an operation from an oracle; tied to the C by refusing the k-th request (harness built against the -vfmem library variant); leaks after a refusal are C16's subject",
     ]
     bad = common.forbidden_scan()
     cres = common.coq_property(PID)
@@ -84,6 +90,8 @@ def run(ctx):
     proof_broken = (not cres["ok"]) or bool(bad)
 
     harness = common.build_harness("c19_harness")
+    # the same harness against the library variant whose allocator is the harness' (k-th request refused)
+    harness_vf = common.build_harness("c19_harness", tag="-vfmem", extra=("-DC19_VFMEM",))
     driver = common.build_driver("C19")
 
     fixed = corpus_seqs() + boundary_seqs()
@@ -96,8 +104,15 @@ def run(ctx):
     nseq = 0 if replaying else (20000 if ctx.tier == "quick" else 1000000)
     per = 500 if ctx.tier == "quick" else 2500
     jobs = [(harness, driver, ctx.seed, 1900 + i, min(per, nseq - i * per), 12) for i in range((nseq + per - 1) // per)]
+    # allocation refusal: sequences in which allocating operations carry a refusal plan, on the -vfmem build
+    nseq_a = 0 if replaying else (6000 if ctx.tier == "quick" else 300000)
+    jobs += [(harness_vf, driver, ctx.seed, 190000 + i, min(per, nseq_a - i * per), 15, True) for i in range((nseq_a + per - 1) // per)]
 
-    results = [c19.judge_block(harness, driver, fixed, [s[0].startswith("l") and s[0] != "len" for s in fixed], stream=-1)]
+    def is_list(s):
+        t0 = c19.split_prefix(s[0])[1][0]
+        return t0.startswith("l") and t0 != "len"
+    uses_plan = any(c19.split_prefix(l)[0] for s in fixed for l in s)
+    results = [c19.judge_block(harness_vf if uses_plan else harness, driver, fixed, [is_list(s) for s in fixed], stream=-1)]
     if jobs:
         with ProcessPoolExecutor(common.NPROC) as ex:
             results += list(ex.map(c19.work_chunk, jobs, chunksize=1))
@@ -105,7 +120,13 @@ def run(ctx):
     concrete, corr, opcount = [], [], {}
     nseqs = nops = nontrivial = 0
     samples, spec_pairs, model_crashes = [], [], []
+    n_plans = n_inj_seqs = n_refused = n_partial = 0
     for res in results:
+        n_plans += res.get("refusal_plans", 0)
+        n_refused += res.get("refused", 0)
+        n_partial += res.get("partial", 0)
+        if res.get("injected"):
+            n_inj_seqs += res["sequences"]
         nseqs += res["sequences"]; nops += res["ops"]; nontrivial += res["nontrivial"]
         concrete += res["oracle_failures"]; corr += res["corr_failures"]
         for k, v in res["opcount"].items():
@@ -144,6 +165,9 @@ def run(ctx):
         "samples": samples[:6],
         "traces_validated_against_impl": nseqs,
         "correspondence_disagreements": len(corr),
+        "allocation_refusal": {"sequences": n_inj_seqs, "operations_with_a_refusal_plan": n_plans,
+                               "refusals_that_took_effect_on_the_C": n_refused, "of_which_partial_application_base64": n_partial,
+                               "how": "-vfmem library variant; F<k> = k-th request of the operation refused, A<k> = k-th and later"},
         "spec_side_queries": len(spec_pairs),
         "spec_side_disagreements": len(spec_bad),
     })
@@ -155,10 +179,11 @@ def run(ctx):
         print("KNOWN-FINDING: property=C19 pending finding (props/C19/DEFECTS.md): %s" % v.get("op"), flush=True)
     for v in concrete[:3]:
         is_list = v["kind"] == "list"
+        hv = harness_vf if any(c19.split_prefix(l)[0] for l in v["lines"]) else harness
         try:
-            small = c19.shrink(harness, v["lines"], is_list, lambda cand: c19.c_fails(harness, cand, is_list))
+            small = c19.shrink(hv, v["lines"], is_list, lambda cand: c19.c_fails(hv, cand, is_list))
             if small != v["lines"]:
-                res, crash = c19.run_block(harness, [small])
+                res, crash = c19.run_block(hv, [small])
                 o, _, _ = (c19.judge_list_seq if is_list else c19.judge_buffer_seq)(small, res[0], res[0])
                 if o:
                     v = {"kind": v["kind"], "lines": small, "original_lines": v["lines"], **o}
